@@ -554,6 +554,10 @@ def _get_slip_rates_olivine(
 
     """
     i_inac, i_min, i_int, i_max = slip_indices
+    # No slip system of finite strength is resolved, so there is no slip at all
+    # (e.g. C-type grain aligned with a simple shear in its b-c plane).
+    if invariants[i_max] / crss[i_max] == 0:
+        return np.zeros(4)
     # Ratio of slip rates on each slip system to slip rate on softest slip system.
     # Softest slip system has max. slip rate (aka activity).
     # See eq. 5, Kaminski 2001.
